@@ -574,9 +574,12 @@ struct BigInt {
         }
 
         if QENTEM_CONST_EXPRESSION (is_bigger_size) {
+            // Number of words the operand type spans: a negative operand (arithmetic shift) never
+            // becomes zero, so the chunk loop is bounded by the operand's width and by the storage.
+            constexpr SizeT32 chunks = SizeT32((sizeof(N_Number_T) * 8U) / TypeWidth());
             number >>= TypeWidth();
 
-            while (number != N_Number_T{0}) {
+            while ((index < chunks) && (index <= MaxIndex()) && (number != N_Number_T{0})) {
                 switch (Operation) {
                     case BigIntOperation::Add: {
                         Add(Number_T(number), index);
